@@ -156,6 +156,11 @@ def sym_roundtrip(P, ex):
             raise
         except Exception as e:  # noqa
             ex.fail_here(f'to_micheline_value({mode}) failed: {type(e).__name__}: {e}')
+        if mode == 'readable':
+            ex.check(isinstance(opt, dict) and opt.get('string') == (text[:-len('%default')] if text.endswith('%default') else text), 'readable form is the text itself')
+            back = cls.from_micheline_value(opt)
+            ex.check(back.value == opt['string'], 'readable round trip')
+            return
         ex.check(isinstance(opt, dict) and 'bytes' in opt, 'optimized form is a bytes literal')
         b.recorded.clear()
         try:
